@@ -5,6 +5,7 @@
 package c13
 
 import (
+	stdjson "encoding/json"
 	"fmt"
 	"io"
 	"log"
@@ -18,6 +19,7 @@ import (
 
 	"github.com/asynkron/protoactor-go/actor"
 	"github.com/sirupsen/logrus"
+	gproto "google.golang.org/protobuf/proto"
 
 	"github.com/dfklegend/cell2/actorex/service"
 	"github.com/dfklegend/cell2/actorex/service/servicemsgs"
@@ -432,17 +434,37 @@ var msgTypes = func() []reflect.Type {
 	return out
 }()
 
-// decodeHints: what the serializer makes of the payload for each declared
-// message type, computed here independently of the code under test.
-func decodeHints(ser serialize.Serializer, data []byte) string {
-	if ser == nil {
+// decodeHints: what the payload IS for each declared message type, decided by
+// reference decoders called here directly — never through the serializers of
+// utils/serialize, which are code under test:
+//   json : the WHOLE byte string must be one JSON value (encoding/json.Valid) that
+//          encoding/json.Unmarshal stores into the type (leading/trailing white space is fine;
+//          a second document, an extra brace, a trailing comma or other trailing bytes are not)
+//   proto: the type must be a proto.Message and google.golang.org/protobuf/proto.Unmarshal accepts the bytes
+// The value is canonicalised by re-marshalling (digest).
+func decodeHints(ser string, data []byte) string {
+	if ser != "json" && ser != "proto" {
 		return ""
 	}
 	var sb strings.Builder
 	for _, t := range msgTypes {
 		v := reflect.New(t.Elem()).Interface()
 		r := hx.Guard(func() string {
-			if err := ser.Unmarshal(append([]byte(nil), data...), v); err != nil {
+			buf := append([]byte(nil), data...)
+			if ser == "json" {
+				if !stdjson.Valid(buf) {
+					return "err"
+				}
+				if err := stdjson.Unmarshal(buf, v); err != nil {
+					return "err"
+				}
+				return digest(v)
+			}
+			m, ok := v.(gproto.Message)
+			if !ok {
+				return "err"
+			}
+			if err := gproto.Unmarshal(buf, m); err != nil {
 				return "err"
 			}
 			return digest(v)
@@ -962,6 +984,42 @@ func (g *gen) payloadFor(ser string, t reflect.Type) []byte {
 	return []byte(`{}`)
 }
 
+// trailingJunk: a valid JSON value followed by something: a second value, an extra
+// brace, a trailing comma, other bytes (all undecodable: the whole payload must be
+// ONE value) — or only white space (still decodable)
+func (g *gen) trailingJunk(valid []byte) []byte {
+	h := g.h
+	out := append([]byte(nil), valid...)
+	switch h.R.Intn(9) {
+	case 0:
+		h.Count("payload.json+extra-brace")
+		return append(out, '}')
+	case 1:
+		h.Count("payload.json+trailing-comma")
+		return append(out, ',')
+	case 2:
+		h.Count("payload.json+second-document")
+		return append(out, valid...)
+	case 3:
+		h.Count("payload.json+second-document")
+		return append(append(out, ' '), []byte(`{"abc":"second"}`)...)
+	case 4:
+		h.Count("payload.json+garbage")
+		return append(out, []byte("garbage")...)
+	case 5:
+		h.Count("payload.json+nul")
+		return append(out, 0)
+	case 6:
+		h.Count("payload.json+bracket")
+		return append(out, ']')
+	case 7:
+		h.Count("payload.json+whitespace(ok)")
+		return append(out, []byte(" \n\t\r ")...)
+	}
+	h.Count("payload.whitespace+json+whitespace(ok)")
+	return append(append([]byte("\n  "), out...), ' ')
+}
+
 func (g *gen) payload(ser string) []byte {
 	h := g.h
 	pb := func(i int32, s string) []byte {
@@ -1070,13 +1128,18 @@ func (g *gen) cszOp() string {
 			ser = "proto"
 		}
 		data = g.payloadFor(ser, t.m.Type.In(2))
+		if ser == "json" && h.R.Intn(6) == 0 {
+			data = g.trailingJunk(data)
+		}
+	} else if ser == "json" && h.R.Intn(10) == 0 {
+		data = g.trailingJunk([]byte(fmt.Sprintf(`{"abc":"j%d","n":%d}`, h.R.Intn(100), h.R.Intn(1000))))
 	}
 	cb := g.cbFor(t)
 	h.Count("csz.ser." + ser)
 	h.Count(fmt.Sprintf("csz.cb%d", cb))
 	h.Count("ctx." + ctx)
 	return fmt.Sprintf("csz col=%d route=%s ser=%s ctx=%s ctxt=%s cb=%d beh=%s data=%s%s", t.col, hx16(t.route), ser, ctx, ctxTypeHex(ctx),
-		cb, g.beh(), hx.Hex(data), decodeHints(mkSer(ser), data))
+		cb, g.beh(), hx.Hex(data), decodeHints(ser, data))
 }
 
 func (g *gen) callOp() string {
@@ -1137,7 +1200,7 @@ func (g *gen) dispOp() string {
 	h.Count(fmt.Sprintf("disp.notify%d", hx.B2i(reqid == 0)))
 	h.Count(fmt.Sprintf("disp.ncols%d", len(cols)))
 	return fmt.Sprintf("disp cols=%s route=%s reqid=%d beh=%s rc=%s data=%s%s", strings.Join(cols, ","), hx16(t.route), reqid, beh,
-		hx16(reflect.TypeOf(service.NewRemoteContext()).String()), hx.Hex(data), decodeHints(sproto.GetDefaultSerializer(), data))
+		hx16(reflect.TypeOf(service.NewRemoteContext()).String()), hx.Hex(data), decodeHints("proto", data))
 }
 
 func (g *gen) shapeOp() string {
@@ -1259,7 +1322,7 @@ func exhaustiveRoutes(h *hx.T, run func(string), maxSeg int) {
 	alphabet := []string{"", "_", "hello", "Join", "Say", "ptrjoin", "ptrsay", "x"}
 	dc := ctxTypeHex("dummy")
 	data := []byte(`{"abc":"e","n":2}`)
-	hints := decodeHints(mkSer("json"), data)
+	hints := decodeHints("json", data)
 	n := 0
 	var rec func(segs []string)
 	rec = func(segs []string) {
@@ -1375,9 +1438,9 @@ func TestMkCorpus(t *testing.T) {
 		case len(ws) == 2 && ws[0] == "meth":
 			out = append(out, methLines(zooByName(ws[1]))...)
 		case len(ws) > 0 && ws[0] == "csz" && !strings.Contains(l, " d:"):
-			out = append(out, l+decodeHints(mkSer(kvs(ws, "ser")), hx.KVHex(ws, "data")))
+			out = append(out, l+decodeHints(kvs(ws, "ser"), hx.KVHex(ws, "data")))
 		case len(ws) > 0 && ws[0] == "disp" && !strings.Contains(l, " d:"):
-			out = append(out, l+" rc="+hx16(reflect.TypeOf(service.NewRemoteContext()).String())+decodeHints(sproto.GetDefaultSerializer(), hx.KVHex(ws, "data")))
+			out = append(out, l+" rc="+hx16(reflect.TypeOf(service.NewRemoteContext()).String())+decodeHints("proto", hx.KVHex(ws, "data")))
 		default:
 			out = append(out, l)
 		}
